@@ -70,34 +70,45 @@ CLAIMED = {
             "(every neighbour pair and atom >= 1e-9, slack 1e-6).",
             "Trusted: Lean kernel + Mathlib; random() uniform on the 53-bit grid with independent draws; the law extractor; "
             "u = 1/2 and zero-width domains belong to C12.", "§6 C01"),
-    "C02": ("Lean 4 proof: (eps,delta) theorems for the Laplace family/uniform/staircase on all measurable sets, calibration "
-            "identities, bracket invariants of the root finders (any carrier) + calibration correspondence and 60-digit "
-            "hockey-stick evaluation from the implementation's parameters",
-            "Machine-checked: Laplace with the coded scale is (eps,delta)-DP on every measurable set (density ratio, "
-            "normalisation proved via the Gamma integral, lift to sets, (e^eps/(1-delta)) => (eps,delta)), also after any "
-            "measurable post-processing (truncation, folding); uniform; staircase for every gamma and the sampler's "
-            "parameters; snapping identity eff*(1+12B eta)+2 eta = eps; bounded-noise overlap ratio and tail mass = delta; "
-            "the coded analytic-Gaussian b+/b- are the Balle-Wang expression; discrete-Gaussian accumulators are the partial "
-            "sums and the returned scale has objective <= 0; bracket invariants of all three root finders for any carrier. "
-            "PARTIAL (kept as `def ..._full : Prop`): end-to-end statements for bounded-noise, bounded-domain, classical/"
-            "analytic Gaussian need cited results (Geng et al., Holohan et al., Balle-Wang, a Mills-ratio fact) and the side "
-            "of the root on which a midpoint falls — measured on every run. Tied to the code by reading the scale actually "
-            "used off the running sampler and comparing with the driver; the property itself is evaluated at 60 digits "
-            "(hockey-stick divergence over displacements and positions) from the implementation's calibrated parameters.",
-            "Trusted: Lean kernel + Mathlib; cited theorems enter as explicit hypotheses; harness/contlaw.py (60-digit laws); "
-            "numeric erf/erfc Float instance (checked against math.erf/erfc on every run).", "§6 C02"),
-    "C19": ("Lean 4 proof: moments of the geometric/Laplace/uniform laws equal the coded closed forms, mse decomposition, "
-            "monotonicity + closed-form correspondence and 60-digit moments of the law built from the sampler's own scale",
-            "Machine-checked: geometric variance (series over Z) = coded expression and mean 0; Laplace variance 2b^2 and mean "
-            "0 (integrals computed); uniform; Gaussian (unit-normal moments as hypotheses); mse = variance + bias^2; "
-            "variance antitone in epsilon / monotone in sensitivity for all four; folded bias new = old expression; zero-scale "
-            "moments; truncated/bounded-domain moments for a value inside a finite domain with three integral evaluations as "
-            "hypotheses (PARTIAL). Tied to the code by comparing bias/variance/mse with the driver, and checked directly: "
-            "moments recomputed at 60 digits from the exact pmf / the closed-form law with the scale the SAMPLER uses. The "
-            "regions where the code's closed forms are wrong (value outside the domain, infinite bounds, cancellation) are "
-            "listed open known findings and are exactly what the _partial theorems exclude.",
-            "Trusted: Lean kernel + Mathlib; harness/contlaw.py; folded-law mean (infinite reflection sum) validated "
-            "numerically only.", "§6 C19"),
+    "C02": ("Lean 4 proof: (eps,delta) theorems on all measurable sets for the Laplace family, uniform, staircase, bounded-noise "
+            "Laplace, the classical Gaussian (Mathlib's gaussianReal) and - given the private side of the root - bounded-domain "
+            "Laplace and the analytic Gaussian (Balle-Wang sufficiency proved); calibration identities; bracket invariants of "
+            "the root finders (any carrier) + formula anchors + calibration correspondence and 60-digit hockey-stick evaluation",
+            "Machine-checked (42 theorems): Laplace with the coded scale is (eps,delta)-DP on every measurable set (density "
+            "ratio, normalisation via the Gamma integral, lift to sets), also after any measurable post-processing "
+            "(truncation, folding); uniform; staircase for every gamma and the sampler's parameters; snapping identity "
+            "(Mironov cited); bounded-noise Laplace end to end (overlap ratio, tail mass exactly delta, assembled for "
+            "measurable S); bounded-domain Laplace: the normaliser bound that replaces Holohan et al. Lemma 3.4 is PROVED, "
+            "density ratio <= e^eps/(1-delta) for any b with f(b) <= b, measure-level inequality; classical Gaussian end to "
+            "end for 0 < eps <= 1 with the coded sigma (tail facts proved for the true erfc); Balle-Wang Theorem 8 "
+            "sufficiency PROVED and the coded b+/b- are that expression; discrete-Gaussian accumulators are the partial sums "
+            "and the returned scale has objective <= 0; bracket invariants of all three root finders for any carrier. "
+            "REMAINING (kept as `def ..._full : Prop`): bounded_domain_dp_full and analytic_gauss_dp_full are reduced exactly "
+            "to 'the returned bracket midpoint lies on the private side of the root', which is not provable even in exact "
+            "arithmetic and is measured on every run; CKS Thm 7 (discrete Gaussian end to end) and the link between the "
+            "double-precision erfc and the true one are cited/validated. Closed forms are re-read from /repo's AST on every "
+            "run and proved equal to the model's (formula anchors). Tied to the code by reading the scale actually used off "
+            "the running sampler; the property itself is evaluated at 60 digits (hockey-stick divergence over displacements "
+            "and positions, incl. live-object parameter assignment).",
+            "Trusted: Lean kernel + Mathlib; Mironov Thm 1 and CKS Thm 7 enter as explicit hypotheses; harness/contlaw.py "
+            "(60-digit laws); numeric erf/erfc Float instance (checked against math.erf/erfc on every run). Open findings: "
+            "five classes keep a stale calibration after a parameter assignment.", "§6 C02"),
+    "C19": ("Lean 4 proof: moments of the geometric, Laplace, truncated, folded and bounded-domain Laplace, uniform and Gaussian "
+            "laws equal the coded closed forms (integrals and series computed), mse decomposition, monotonicity + formula "
+            "anchors + closed-form correspondence and 60-digit moments of the law built from the sampler's own scale",
+            "Machine-checked (27 theorems): geometric variance (series over Z) = coded expression, mean 0; Laplace variance "
+            "2b^2, mean 0; truncated Laplace (push-forward under the clamp) and bounded-domain Laplace (conditioned law): "
+            "mean - v = coded bias and second moment - mean^2 = coded variance for a value inside a finite domain, with all "
+            "integral evaluations PROVED (FTC with explicit antiderivatives), tail masses and normalisation; folded Laplace: "
+            "the reflection map of the model's `_fold` is the fold map and the mean of the folded law - v = coded bias (two "
+            "geometric series over the periods); uniform; Gaussian for Mathlib's N(0,1) with no hypothesis left; mse = "
+            "variance + bias^2; variance antitone in epsilon / monotone in sensitivity; zero-scale moments; and "
+            "truncated_moments_full_cex: the full statement (any value) is FALSE for the code - the regions where the code's "
+            "closed forms are wrong (value outside the domain, infinite bounds, cancellation) are the listed open findings. "
+            "Closed forms are re-read from /repo's AST on every run (symbolic value of each method body) and proved equal to "
+            "the model's. Tied to the code by comparing bias/variance/mse with the driver; checked directly: moments at 60 "
+            "digits from the exact pmf / closed-form law with the scale the SAMPLER uses, incl. live-object sequences.",
+            "Trusted: Lean kernel + Mathlib; harness/contlaw.py; float cancellation validated numerically.", "§6 C19"),
     "C03": ("Lean 4 proof: additivity/input-independence/linearity of every additive sampler as coded, rejection = first accepted "
             "draw, law facts (threshold, uniform, exponential-of-uniform), CKS acceptance identity, staircase mixture, "
             "post-processing + scripted-stream correspondence; unit-noise laws validated statistically at the DKW 1e-14 level",
